@@ -151,6 +151,13 @@ def write_evidence(prop, tier, seed, level, results, units, wall, violations=0, 
     ob = sum(r.get("checks_total", 0) for r in proved)
     dis = sum(r.get("checks_passed", 0) for r in proved if r["status"] == "verified") + \
           sum(r.get("checks_passed", 0) for r in proved if r["status"] != "verified")
+    umap = {u["name"]: u for u in units}
+    for r in results:
+        if r["tool"] == "kani" and not r.get("location") and r["unit"] in umap:
+            try:
+                r["location"] = K.fn_location(umap[r["unit"]], r["function"])
+            except Exception:
+                r["location"] = None
     fns = {}
     for r in results:
         fns.setdefault(r["function"], {"function": r["function"], "location": r.get("location"), "checked_by": []})
@@ -250,6 +257,7 @@ def main(argv):
     if "--tier" in args:
         i = args.index("--tier"); tier = args[i + 1]; del args[i:i + 2]
     if cmd == "check":
+        os.environ["VERIF_TIER"] = tier
         return check(args[0], tier, seed)
     if cmd == "replay":
         return replay(args[0])
